@@ -51,6 +51,9 @@ type Term struct {
 	IsLit bool
 	Val   *big.Int // for bv/int literal; for bool: 0/1
 	Def   *Term    // for named constants introduced by define(): the defining term
+	Q     string   // for quantifiers: forall / exists
+	QVars []*Term
+	QPats []*Term
 	str   string   // cached print
 }
 
@@ -518,9 +521,96 @@ func Quant(q string, vars []*Term, body *Term, pats ...*Term) *Term {
 		sb.WriteString(body.String())
 	}
 	sb.WriteString(")")
-	t := &Term{Op: "quant", Args: []*Term{body}, S: SBool}
+	t := &Term{Op: "quant", Args: []*Term{body}, S: SBool, Q: q, QVars: vars, QPats: pats}
 	t.str = sb.String()
 	return t
+}
+
+// Subst replaces constants by terms (by name) throughout t, rebuilding with the simplifying constructors.
+func Subst(t *Term, m map[string]*Term) *Term {
+	cache := map[*Term]*Term{}
+	var rec func(x *Term) *Term
+	rec = func(x *Term) *Term {
+		if r, ok := cache[x]; ok {
+			return r
+		}
+		var r *Term
+		switch {
+		case x.Op == "const":
+			if n, ok := m[x.Name]; ok && !x.IsLit {
+				r = n
+			} else {
+				r = x
+			}
+		case x.Op == "quant":
+			// bound variables shadow
+			m2 := m
+			for _, v := range x.QVars {
+				if _, ok := m[v.Name]; ok {
+					m2 = map[string]*Term{}
+					for k, vv := range m {
+						m2[k] = vv
+					}
+					for _, v2 := range x.QVars {
+						delete(m2, v2.Name)
+					}
+					break
+				}
+			}
+			var pats []*Term
+			for _, p := range x.QPats {
+				pats = append(pats, Subst(p, m2))
+			}
+			r = Quant(x.Q, x.QVars, Subst(x.Args[0], m2), pats...)
+		default:
+			changed := false
+			args := make([]*Term, len(x.Args))
+			for i, a := range x.Args {
+				args[i] = rec(a)
+				if args[i] != a {
+					changed = true
+				}
+			}
+			if !changed {
+				r = x
+			} else {
+				r = rebuild(x, args)
+			}
+		}
+		cache[x] = r
+		return r
+	}
+	return rec(t)
+}
+
+func rebuild(x *Term, args []*Term) *Term {
+	switch x.Op {
+	case "not":
+		return Not(args[0])
+	case "and":
+		return And(args...)
+	case "or":
+		return Or(args...)
+	case "=>":
+		return Implies(args[0], args[1])
+	case "=":
+		return Eq(args[0], args[1])
+	case "ite":
+		return Ite(args[0], args[1], args[2])
+	case "select":
+		return Select(args[0], args[1])
+	case "store":
+		return Store(args[0], args[1], args[2])
+	case "constarr":
+		return ConstArr(x.S, args[0])
+	case "bvult", "bvule", "bvugt", "bvuge", "bvslt", "bvsle", "bvsgt", "bvsge":
+		return BVCmp(x.Op, args[0], args[1])
+	case "bvadd", "bvsub", "bvmul", "bvand", "bvor", "bvxor", "bvshl", "bvlshr", "bvashr", "bvudiv", "bvurem", "bvsdiv", "bvsrem":
+		return BVBin(x.Op, args[0], args[1])
+	case "<", "<=", ">", ">=":
+		return IntCmp(x.Op, args[0], args[1])
+	}
+	return &Term{Op: x.Op, Args: args, S: x.S}
 }
 
 // FreeConsts collects the names of const terms occurring in t (bound ones included; harmless).
